@@ -1,7 +1,7 @@
 ------------------------------- MODULE LinModel -------------------------------
 (***************************************************************************)
 (* C04.  Linear genomic model predictions and derived statistics, exact.   *)
-(* Z[i][l] allele dosage (0..2) of taxon i at marker l; u[l][t] additive   *)
+(* Z[i][l] allele dosage (0..ploidy) of taxon i at marker l; u[l][t] additive   *)
 (* and d[l][t] dominance effects (integers); b[t] the model intercept.     *)
 (* Variances are given times n*n, genic variance times n*n as well.        *)
 (***************************************************************************)
@@ -19,12 +19,19 @@ VarNN(g) == Len(g) * SumTo([k \in 1..Len(g) |-> g[k] * g[k]], Len(g)) - SumTo(g,
 VarA(Z, u, b, t) == VarNN([i \in 1..NTaxa(Z) |-> Gebv(Z, u, b, i, t)])
 VarG(Z, u, d, b, t) == VarNN([i \in 1..NTaxa(Z) |-> Gegv(Z, u, d, b, i, t)])
 ACount(Z, l) == SumTo([i \in 1..NTaxa(Z) |-> Z[i][l]], NTaxa(Z))
-\* n^2 * genic variance = sum_l u^2 a (2n - a)      (ploidy^2 sum u^2 p (1-p) with p = a/(2n))
-VarGenic(Z, u, t) == SumTo([l \in 1..NMark(Z) |-> u[l][t] * u[l][t] * ACount(Z, l) * (2 * NTaxa(Z) - ACount(Z, l))], NMark(Z))
+\* number of chromosome copies in the population at one locus, for ploidy P (dosages 0..P)
+Copies(Z, P) == P * NTaxa(Z)
+\* n^2 * genic variance = sum_l u^2 a (Pn - a)      (ploidy^2 sum u^2 p (1-p) with p = a/(Pn))
+VarGenicP(Z, u, t, P) == SumTo([l \in 1..NMark(Z) |-> u[l][t] * u[l][t] * ACount(Z, l) * (Copies(Z, P) - ACount(Z, l))], NMark(Z))
 \* favourable / deleterious allele counts
-FaCount(Z, u, l, t) == IF u[l][t] > 0 THEN ACount(Z, l) ELSE IF u[l][t] < 0 THEN 2 * NTaxa(Z) - ACount(Z, l) ELSE 0
-DaCount(Z, u, l, t) == IF u[l][t] < 0 THEN ACount(Z, l) ELSE IF u[l][t] > 0 THEN 2 * NTaxa(Z) - ACount(Z, l) ELSE 0
-Poly(Z, l) == ACount(Z, l) > 0 /\ ACount(Z, l) < 2 * NTaxa(Z)
+FaCountP(Z, u, l, t, P) == IF u[l][t] > 0 THEN ACount(Z, l) ELSE IF u[l][t] < 0 THEN Copies(Z, P) - ACount(Z, l) ELSE 0
+DaCountP(Z, u, l, t, P) == IF u[l][t] < 0 THEN ACount(Z, l) ELSE IF u[l][t] > 0 THEN Copies(Z, P) - ACount(Z, l) ELSE 0
+PolyP(Z, l, P) == ACount(Z, l) > 0 /\ ACount(Z, l) < Copies(Z, P)
+\* the diploid instances (the exhaustive model below is diploid)
+VarGenic(Z, u, t) == VarGenicP(Z, u, t, 2)
+FaCount(Z, u, l, t) == FaCountP(Z, u, l, t, 2)
+DaCount(Z, u, l, t) == DaCountP(Z, u, l, t, 2)
+Poly(Z, l) == PolyP(Z, l, 2)
 
 \* ---- exhaustive model
 CONSTANTS MaxN, MaxP, Eff
